@@ -29,10 +29,21 @@ def immutability_records(rng, n):
     def snap(x):
         return copy.deepcopy(x), type(x)
 
+    def book(x):
+        """everything observable about a model object besides its terms"""
+        out_ = []
+        for attr in ("variables", "mapping", "reverse_mapping", "degree", "num_binary_variables", "max_index", "num_ancillas", "name"):
+            try:
+                v = getattr(x, attr)
+                out_.append(repr(sorted(v.items(), key=repr)) if isinstance(v, dict) else (repr(sorted(v, key=repr)) if isinstance(v, set) else repr(v)))
+            except AttributeError:
+                out_.append(None)
+        return out_
+
     def same(x, s):
         try:
             return type(x) is s[1] and x == s[0] and (not hasattr(x, "constraints") or x.constraints == s[0].constraints) \
-                and (not hasattr(x, "mapping") or x.mapping == s[0].mapping)
+                and (not hasattr(x, "mapping") or x.mapping == s[0].mapping) and book(x) == book(s[0])
         except Exception:
             return False
 
@@ -80,6 +91,19 @@ def immutability_records(rng, n):
             m = cls(d)
             if kind in ("PCBO", "PCSO"):
                 m.add_constraint_le_zero({(labs[0],): 1, (labs[1],): 1, (): -1})
+            if kind != "dict" and i % 2 == 1:
+                # the argument is a model with history: a named model whose labels were renumbered and in which a term over one
+                # more label came and went (bookkeeping that a callee might be tempted to tidy up)
+                extra = 5 if kind.endswith("Matrix") else "gone"
+                m[(extra,)] += 1
+                m[(extra,)] -= 1
+                if hasattr(m, "set_mapping"):
+                    mp_ = m.mapping
+                    m.set_mapping({k_: len(mp_) - 1 - v_ for k_, v_ in mp_.items()})
+                try:
+                    m.name = "model-%d" % i
+                except Exception:      # noqa
+                    pass
             if spin:
                 call("puso_to_pubo", kind, utils.puso_to_pubo, m)
                 call("solve_puso_bruteforce", kind, utils.solve_puso_bruteforce, m)
@@ -153,6 +177,26 @@ def run(tier, out, replay=None):
         return
     wd = common.workdir("c19imm")
     try:
+        # directed histories between two objects of ONE class (one weight per operation): merges, copies, clones, round trips and
+        # constraints in every order, validated step by step like the generated ones
+        from . import c14, modelobj
+        drng = common.rng_for(out.seed, "c19dir")
+        for name, k1, k2 in (("pcbo2d", "PCBO", "PCBO"), ("pcso2d", "PCSO", "PCSO")):
+            labels4 = ["a", "b", "c", "d"]
+            base = c14.directed_histories(drng, 2500 if thorough else 300, labels4, constrained=True, kinds=(k1, k2), length=6)
+            ops_list = []
+            for ops in base:
+                # sprinkle the C19 operations in: clone by constructor, info round trip, getter probe
+                extra = drng.choice([["ctor", 1, 2], ["ctor", 2, 1], ["info", 1, 2], ["info", 2, 1], ["poke", 1], ["poke", 2], ["copy", 1, 2]])
+                pos = drng.randint(0, len(ops))
+                ops_list.append([o for o in (ops[:pos] + [extra] + ops[pos:]) if o[0] != "toenum"])
+            out.add("directed_histories", len(ops_list))
+            pl, desc = c14.py_labels(drng, labels4)
+            codec = modelobj.LabelCodec(labels4, pl)
+            traces = modelobj.replay(ops_list, [k1, k2], codec)
+            for t in traces:
+                t["py_labels"] = desc
+            c14.validate(out, wd, traces, (name, k1, k2, labels4), "directed", invs=TRACE_INVS)
         rng = common.rng_for(out.seed, "c19imm")
         recs = immutability_records(rng, 12 if thorough else 2)
         out.set("immutability_calls", len(recs))
